@@ -164,7 +164,9 @@ def run(chk):
             kn = {}
             seq = [(i, d, kn.setdefault(i, k)) for i, d, k in seq]      # an id is either known to the decoder table or not
             for secret in secrets:
-                combos.append((thr, thr is not None, seq, secret))
+                # the model cipher costs one AES block per byte: very long frames go through it under the first threshold only
+                sq = seq if (secret is None or thr is None) else [(i, d[:9000], k) for i, d, k in seq]
+                combos.append((thr, thr is not None, sq, secret))
     writer_side(chk, Raw, combos)
     reader_side(chk, C, Raw, Conn, combos, rng, th)
     chk.assumptions += ['zlib is library code: in the model inflate/deflate are a table computed by the harness with Python zlib (the theorems hold for every codec with inflate(deflate x) = x)',
